@@ -4,7 +4,7 @@ checker's -overlay), runs all 20 checks on each and lists the mutants NO check r
 the project is built and the 43-test suite is run in a scratch worktree: a survivor that also passes the suite
 is either an equivalent mutant or a blind spot of both the suite and the checks.
 
-usage: mutation_sweep.py [--files a.go,b.go] [--max N] [--par P] out.json
+usage: mutation_sweep.py [--files a.go,b.go] [--max N] [--par P] [--skip-seen earlier.json] out.json
 Nothing is written to /repo; worktrees are created under /tmp and removed.
 """
 import json, os, re, subprocess, sys, tempfile, random
@@ -18,10 +18,12 @@ FILES = ["prunner.go", "taskctl/scheduler.go", "taskctl/runner.go", "taskctl/exe
          "server/server.go", "app/app.go", "config/config.go", "helper/helper.go"]
 args = sys.argv[1:]
 maxn, par = 400, 10
+seen_file = None
 while args and args[0].startswith("--"):
     if args[0] == "--files": FILES = args[1].split(","); args = args[2:]
     elif args[0] == "--max": maxn = int(args[1]); args = args[2:]
     elif args[0] == "--par": par = int(args[1]); args = args[2:]
+    elif args[0] == "--skip-seen": seen_file = args[1]; args = args[2:]
 out = args[0]
 
 OPS = [(r" == ", " != "), (r" != ", " == "), (r" <= ", " < "), (r" >= ", " > "), (r" < ", " <= "), (r" > ", " >= "),
@@ -96,6 +98,9 @@ for f in FILES:
     for (path, ln, what, newline) in ms:
         lines = list(src); lines[ln - 1] = newline
         allm.append({"file": path, "line": ln, "what": what, "old": src[ln - 1].strip(), "new": newline.strip(), "content": "\n".join(lines)})
+if seen_file:
+    seen = {(r["file"], r["line"], r["what"]) for r in json.load(open(seen_file))}
+    allm = [m for m in allm if (m["file"], m["line"], m["what"]) not in seen]
 random.seed(int(os.environ.get("VERIF_SEED", "1")))
 random.shuffle(allm)
 allm = allm[:maxn]
